@@ -29,7 +29,7 @@ ALPHABET = [
     'Int(1)', 'Int(2)', 'Int(4)', 'Int(8)', 'Int(2, signed=True)', 'Int(1, signed=True)',
     'Int(4, endianness="little")', 'Int(2, endianness="little", signed=True)', 'Int(2, endianness="local")',
     'Int(3)', 'Data(2)', 'Data(1)', 'Data(until_marker=b"\\n")', 'Ref(Inner)',
-    'Int(1).repeated(2)', 'Int(2).at(6)', 'BITS',
+    'Int(1).repeated(2)', 'Int(2).at(6)', 'BITS', 'DESC',
 ]
 
 
@@ -57,6 +57,10 @@ def body_of(seq):
         if f == 'BITS':
             lines.append('b%da = Bits(3)' % i)
             lines.append('b%db = Bits(5)' % i)
+        elif f == 'DESC':
+            # a described field (descriptor sync hooks run before pack / after unpack) and the byte string it measures
+            lines.append('n%d = Int(1).describe(AutoLength("d%d"))' % (i, i))
+            lines.append('d%d = Data(n%d)' % (i, i))
         else:
             lines.append('f%d = %s' % (i, f))
     return lines
